@@ -153,7 +153,7 @@ Definition ex_store : store :=
      dead := [] |}.
 Definition ex_bob : identity := {| id_user := Some "bob"; id_groups := None |}.
 Definition ex_req (op : Z) (u : option string) : request :=
-  {| r_op := op; r_uid := u; r_uids := []; r_wrap := None; r_pre_ok := true; r_post_ok := true;
+  {| r_op := op; r_uid := u; r_uids := []; r_each_ok := []; r_wrap := None; r_pre_ok := true; r_post_ok := true;
      r_match := None; r_new := [] |}.
 
 (* bob asks for alice's symmetric key under the built-in default policy: refused with the not-found text *)
@@ -269,7 +269,7 @@ Proof. exact owner_forever_l. Qed.
 Print Assumptions owner_forever.
 
 Definition ex_create : request :=
-  {| r_op := 1; r_uid := None; r_uids := []; r_wrap := None; r_pre_ok := true; r_post_ok := true;
+  {| r_op := 1; r_uid := None; r_uids := []; r_each_ok := []; r_wrap := None; r_pre_ok := true; r_post_ok := true;
      r_match := None; r_new := [("3", 2, "default")] |}.
 
 (* bob creates object 3 and destroys it through the ID placeholder in the same batch; alice's rows stay *)
